@@ -59,15 +59,18 @@ def encodeMem (s : Instr) (mi : Nat) : Instr × Bool :=
   then ({ s with modDisp := c_MOD8, zeroByte := true }, true)
   else (s, true)
 
+/-- `instrc->hex.rex = get_rex_prefix(instrc, m, r)` -/
+def setRex (s : Instr) (m r : Operand) : Instr :=
+  let (s, rex) := getRexPrefix s m r
+  { s with hex := { s.hex with rex := rex } }
+
 /-- `encode_two_opds`. -/
 def encodeTwoOpds (s : Instr) (r m : Nat) : R Instr :=
   let (s, hasMem) := encodeMem s m
   let s := if hasMem then autoSetOperand s (s.opd r).reg else s
   match getReg s m (s.opd r).reg with
   | .error e => .error e
-  | .ok s =>
-    let (s, rex) := getRexPrefix s (s.opd m) (s.opd r)
-    .ok { s with hex := { s.hex with rex := rex } }
+  | .ok s => .ok (setRex s (s.opd m) (s.opd r))
 
 /-- `encode_three_opds`. -/
 def encodeThreeOpds (s : Instr) (r m v : Nat) : R Instr :=
@@ -76,9 +79,12 @@ def encodeThreeOpds (s : Instr) (r m v : Nat) : R Instr :=
   let s := { s with hex := { s.hex with vvvv := (s.opd v).reg &&& c_MASK_4BIT } }
   match getReg s m (s.opd r).reg with
   | .error e => .error e
-  | .ok s =>
-    let (s, rex) := getRexPrefix s (s.opd m) (s.opd r)
-    .ok { s with hex := { s.hex with rex := rex } }
+  | .ok s => .ok (setRex s (s.opd m) (s.opd r))
+
+/-- O encoding: `rd_offset = reg & 7`, or-ed with the mod bits for a memory operand -/
+def setRdOffsetO (s : Instr) (m : Nat) : Instr :=
+  let rd := (s.opd m).reg &&& c_VALUE_MASK
+  { s with rdOffset := if s.memDisp then rd ||| s.modDisp else rd }
 
 def noRegister : Operand := { reg := c_reg_none, index := c_reg_none }
 
@@ -89,9 +95,7 @@ def encodeSpecialOpd (s : Instr) (m i : Nat) : R Instr :=
     let (s, _) := encodeMem s m
     match getReg s m row.singleReg with
     | .error e => .error e
-    | .ok s =>
-      let (s, rex) := getRexPrefix s (s.opd m) noRegister
-      .ok { s with hex := { s.hex with rex := rex } }
+    | .ok s => .ok (setRex s (s.opd m) noRegister)
   else if row.enc == c_O then
     let (s, _) := encodeMem s m
     let regR := row.singleReg
@@ -105,33 +109,35 @@ def encodeSpecialOpd (s : Instr) (m i : Nat) : R Instr :=
              then { s with hex := { s.hex with rex := s.hex.rex ||| (c_rex_ + c_rex_b) } } else s
     match getReg s m regR with
     | .error e => .error e
-    | .ok s =>
-      let rd := (s.opd m).reg &&& c_VALUE_MASK
-      .ok { s with rdOffset := if s.memDisp then rd ||| s.modDisp else rd }
-  else if row.enc == c_I then
-    let (s, rex) := getRexPrefix s (s.opd m) (s.opd i)
-    .ok { s with hex := { s.hex with rex := rex } }
+    | .ok s => .ok (setRdOffsetO s m)
+  else if row.enc == c_I then .ok (setRex s (s.opd m) (s.opd i))
   else .ok s
 
-/-- `encode_operands`. -/
-def encodeOperands (s : Instr) : R Instr :=
-  let s :=
-    if nameIs s.key c_xchg && !s.memDisp then
-      let s :=
-        if (s.opd0.reg &&& c_MODE_MASK) > c_noext8 && (s.opd0.reg &&& c_REG_MASK) == c_al then
-          { s with opd0 := s.opd1, opd1 := s.opd0, key := s.key + 1 }
-        else if (s.opd1.reg &&& c_MODE_MASK) > c_noext8 && (s.opd1.reg &&& c_REG_MASK) == c_al then
-          { s with key := s.key + 1 }
-        else s
-      { s with rdOffset := s.opd0.reg &&& c_VALUE_MASK }
-    else s
-  let s := if s.memDisp then autoSetByte s else s
+/-- `encode_operands`, first part: the xchg accumulator form (operand swap, next row, rd) -/
+def xchgAdjust (s : Instr) : Instr :=
+  if nameIs s.key c_xchg && !s.memDisp then
+    let s :=
+      if (s.opd0.reg &&& c_MODE_MASK) > c_noext8 && (s.opd0.reg &&& c_REG_MASK) == c_al then
+        { s with opd0 := s.opd1, opd1 := s.opd0, key := s.key + 1 }
+      else if (s.opd1.reg &&& c_MODE_MASK) > c_noext8 && (s.opd1.reg &&& c_REG_MASK) == c_al then
+        { s with key := s.key + 1 }
+      else s
+    { s with rdOffset := s.opd0.reg &&& c_VALUE_MASK }
+  else s
+
+/-- `encode_operands`, the switch over the operand encoding of the selected row -/
+def dispatchEnc (s : Instr) : R Instr :=
   let enc := (rowAt s.key).enc
   if enc == c_MR then encodeTwoOpds s 1 0
   else if enc == c_RM then encodeTwoOpds s 0 1
   else if enc == c_RVM then encodeThreeOpds s 0 2 1
   else if enc == c_RMV then encodeThreeOpds s 0 1 2
   else encodeSpecialOpd s 0 1
+
+/-- `encode_operands`. -/
+def encodeOperands (s : Instr) : R Instr :=
+  let s := xchgAdjust s
+  dispatchEnc (if s.memDisp then autoSetByte s else s)
 
 /-- `nasm_register_size_optimize`. -/
 def nasmRegisterSizeOptimize (s : Instr) : Instr :=
